@@ -164,6 +164,15 @@ theorem C11_sprintf (c : Cfg) (hc : CfgOK c) (s s' : FStr) (hs : WF c s) (text :
     (h : sprintf c s text = .ok s') : abs s' = text.take c.L :=
   sprintf_abs hc hs text h
 
+/-- `sprintf` for both outcomes of the formatter: the formatted text cut off at the capacity, or — when a conversion
+    fails and `vsnprintf` returns -1 (`Fmt.failed`, e.g. `%ls` with a wide character that is not representable in the
+    locale) — the EMPTY string, whatever partial output the formatter left in the buffer.  The failing case is outside
+    `inDomain` (there is no `std::string` operation to compare with and the header documents nothing); the empty
+    string is the reference the correspondence run prints for it. -/
+theorem C11_sprintf_formatter (c : Cfg) (hc : CfgOK c) (s s' : FStr) (hs : WF c s) (f : Fmt)
+    (h : sprintfF c s f = .ok s') : abs s' = (match f with | .done t => t | .failed _ => []).take c.L :=
+  sprintfF_abs hc hs f h
+
 /-- `swap`: the two texts change places -/
 theorem C11_swap (c : Cfg) (hc : CfgOK c) (s o : FStr) (hs : WF c s) (ho : WF c o) (p : FStr × FStr)
     (h : swap c s o = .ok p) : abs p.1 = abs o ∧ abs p.2 = abs s :=
